@@ -23,6 +23,8 @@ BigViol(r) ==
       conj == <<
         <<"C16", "more_than_queue_len_plus_one_data_sets", r.nsetinit <= r.Q + 1>>,
         <<"C16", "record_outputs_not_reused", r.nrecinit <= (r.Q + 1) * Max({r.set_sizes[i] : i \in 1..Len(r.set_sizes)} \cup {0})>>,
+        \* (parallel_fasta / _fastq / parallel_records make the per-record outputs with Default::default())
+        <<"C16", "record_outputs_not_reused", "ndefault" \notin DOMAIN r \/ r.ndefault <= (r.Q + 1) * Max({r.set_sizes[i] : i \in 1..Len(r.set_sizes)} \cup {0})>>,
         \* all records of these inputs fit into the reader's buffer, which therefore never grows; a record set's buffer is a
         \* copy of it (at most twice as large through Vec's amortised growth), however long the input is
         <<"C16", "record_set_memory_grows_with_the_input", "maxsetcap" \notin DOMAIN r \/ r.maxsetcap <= 2 * r.cap>>,
@@ -93,6 +95,7 @@ SmallViol(r) ==
         <<"C07", "output_not_computed_for_this_record", paired>>,
         <<"C07", "not_every_record_delivered", ~(res.k = "none" /\ drains /\ ~anyInitFault /\ ~mustFail /\ tail.errs = {}) \/ allDelivered>>,
         <<"C07", "waiting_consumer_never_served", ~(res.k = "hang" /\ ~anyInitFault /\ (drains \/ n < r.stop_after) /\ n < K)>>,
+        <<"C07", "call_panicked_before_all_records_were_delivered", ~(res.k = "panic" /\ drains /\ ~anyInitFault /\ ~mustFail /\ tail.errs = {})>>,
         <<"C07", "single_worker_file_order", ~(r.NW = 1 /\ genuine) \/ inOrder>>,
         <<"C07", "records_of_a_set_in_file_order", ~(isInit \/ r.api = "read_parallel") \/ ~genuine \/ \A t \in starts : segOK(t)>>,
         <<"C07", "early_return_value", res.k # "some" \/ (r.stop_after > 0 /\ (r.api = "read_parallel" \/ n = r.stop_after))>>,
@@ -107,6 +110,11 @@ SmallViol(r) ==
         <<"C16", "more_than_queue_len_plus_one_data_sets", ~isInit \/ r.nsetinit <= r.Q + 1>>,
         \* the reader thread has never taken more than queue_len data sets beyond those whose results the consumer received
         <<"C16", "reader_ahead_of_consumer", "lead" \notin DOMAIN r \/ r.lead <= r.Q>>,
+        \* a consumer that returns early stops the reader: it has needed the first needSets batches, the reader can have
+        \* filled at most queue_len more (+ 1: the hook counts a fill when it starts)
+        <<"C16", "reader_kept_reading_after_the_consumer_stopped",
+            LET needSets == IF r.api = "read_parallel" THEN r.stop_after ELSE stopSet IN
+            ~(res.k = "some" /\ r.stop_after > 0 /\ needSets > 0 /\ wellFormed) \/ r.fills_ok <= needSets + r.Q + 1>>,
         <<"C08", "call_did_not_return", res.k \notin {"hang", "panic"}>>,
         <<"C08", "job_still_processing_after_return", res.k \in {"hang", "panic"} \/ r.jobs_started = r.jobs_finished>>,
         <<"C08", "thread_active_after_return", res.k \in {"hang", "panic"} \/ r.late_events = 0>>
